@@ -4537,18 +4537,18 @@ impl<'a> Assignment<'a> {
                             "1" | "yes" | "true" | "enabled" | "on" => DataValue::Bool(true),
                             _ => DataValue::Bool(false),
                         },
-                        ArgType::Integer => DataValue::try_from(value).or_else(|_| {
+                        ArgType::Integer => DataValue::Int(value.parse::<isize>().or_else(|_| {
                             Err(StamError::QuerySyntaxError(
                                 format!("Expected integer in assignment, got '{}'", value),
                                 "",
                             ))
-                        })?,
-                        ArgType::Float => DataValue::try_from(value).or_else(|_| {
+                        })?),
+                        ArgType::Float => DataValue::Float(value.parse::<f64>().or_else(|_| {
                             Err(StamError::QuerySyntaxError(
-                                format!("Expected integer in assignment, got '{}'", value),
+                                format!("Expected float in assignment, got '{}'", value),
                                 "",
                             ))
-                        })?,
+                        })?),
                         ArgType::String => DataValue::String(value.to_string()),
                         _ => unreachable!("argtype should not occur"),
                     }
